@@ -82,7 +82,13 @@ pub fn run(t: &[&str]) -> String {
                     Some(b) => {
                         // the instruction encoder on the instruction the builder denotes
                         let e = ebpf::Insn { opc: b[0], dst, src, off, imm }.to_array();
-                        format!("b={} e={}", hex(&b), hex(&e))
+                        // ... and the assembler on the text the disassembler gives for that instruction (one-slot instructions)
+                        let a = if b[0] == 0x18 { "skip".to_string() } else {
+                            match std::panic::catch_unwind(|| rbpf::disassembler::to_insn_vec(&e)) {
+                                Ok(v) if v.len() == 1 => match std::panic::catch_unwind(|| rbpf::assembler::assemble(&v[0].desc)) {
+                                    Ok(Ok(bytes)) => hex(&bytes), Ok(Err(_)) => "err".to_string(), Err(_) => "panic".to_string() },
+                                _ => "nodis".to_string() } };
+                        format!("b={} e={} a={}", hex(&b), hex(&e), a)
                     }
                     None => "bad-op".into(),
                 }
